@@ -6,7 +6,8 @@ Decides (shape; not debounce timing over histories):
   2 GUARD-DOM  a row bit is OR-ed into the key-input value only for a key on an active column, and only when the key is
                debounced / pending; active columns derive only from the strobe registers
   3 GUARD-DOM  KEYI (ISR bit 2) is asserted only under an existing latch or (keyboard IRQ enabled and new events)
-  4 SIBLING    (thorough) guarded-assignment skeletons of _update_key_state and scan_tick agree
+  4 SIBLING    guarded-assignment skeletons of _update_key_state and scan_tick agree
+  5 TABLE      strobe decoding for all KOL x KOH x polarity values in both languages == bits of KOL | KOH<<8 matching the polarity
 """
 from __future__ import annotations
 
